@@ -222,7 +222,7 @@ def run(ctx):
         "cases_without_old": sum(1 for ct in cts if not ct.rec["old"]),
         "real_syscalls_traced": ncalls,
         "real_events_validated": sum(len(ct.events) for ct in cts),
-        "real_events_outside_target_dir_dropped": sum(ct.dropped for ct in cts),
+        "real_syscalls_ignored_in_case_windows": sum(ct.dropped for ct in cts),   # fcntl, failed calls, other directories
         "real_event_histogram": dict(sorted(hist.items())),
         "real_fsync_file": fsync_file, "real_fsync_dir": fsync_dir,
         "trace_states_distinct": vstats["distinct"], "trace_states_generated_incl_crash_successors": vstats["generated"],
